@@ -16,7 +16,8 @@ type CapLogger struct {
 	lines []string
 	max   int
 
-	recDone int // number of "recover unconfirm tx done" messages seen
+	recDone      int // number of "recover unconfirm tx done" messages seen
+	recAnnounced int // number of "walk failed, recover unconfirm tx" messages seen
 }
 
 func NewCapLogger() *CapLogger { return &CapLogger{max: 200} }
